@@ -10,7 +10,7 @@ environment variable ``VERIF_FAKE_CTL``:
 
     log        path of a JSON-lines file the tool appends its observations to
     gate       path or null: the tool waits until this file exists (at most
-               ``gate_max`` seconds, default 30) before it does anything else
+               ``gate_max`` seconds, default 240) before it does anything else
                ("hang" = the gate is never opened)
     mode       "ok"       write a valid alignment of the input file
                "exit"     like ok (if write_before_exit) but exit with exit_code
@@ -153,7 +153,7 @@ def main(personality):
 
     gate = ctl.get("gate")
     if gate:
-        t_end = time.monotonic() + float(ctl.get("gate_max", 30.0))
+        t_end = time.monotonic() + float(ctl.get("gate_max", 240.0))
         while not os.path.exists(gate) and time.monotonic() < t_end:
             time.sleep(0.01)
 
